@@ -63,6 +63,8 @@ type Exec struct {
 	onRead        func(st *State, l Loc)
 	nq            int
 	wroteAll      string
+	nacq          int
+	acquiredFirst string
 	wholeWrites   map[string]bool
 	heapWrites   map[string]bool
 	globalWrites map[string]bool
@@ -486,11 +488,21 @@ func (ex *Exec) assumeTypeInv(st *State, v T, t types.Type) {
 		ex.vc.assume(st.guard, And(Ge(slLen(v), IntLit(0)), Imp(slNil(v), Eq(slLen(v), IntLit(0)))))
 		return
 	}
-	if v.sort == SInt {
-		if b, ok := t.Underlying().(*types.Basic); ok && b.Info()&types.IsUnsigned != 0 {
-			ex.vc.assume(st.guard, Ge(v, IntLit(0)))
+	if v.sort == SInt && !isTimeTime(t) {
+		if b, ok := t.Underlying().(*types.Basic); ok && b.Info()&types.IsInteger != 0 {
+			lo, hi := intRange(b)
+			ex.vc.assume(st.guard, And(Ge(v, lo), Le(v, hi)))
 		}
 	}
+}
+
+func intRange(b *types.Basic) (T, T) {
+	pow := func(n uint) *big.Int { return new(big.Int).Lsh(big.NewInt(1), n) }
+	bits := uint(intBits(b))
+	if b.Info()&types.IsUnsigned != 0 {
+		return IntLit(0), BigIntLit(new(big.Int).Sub(pow(bits), big.NewInt(1)))
+	}
+	return BigIntLit(new(big.Int).Neg(pow(bits - 1))), BigIntLit(new(big.Int).Sub(pow(bits-1), big.NewInt(1)))
 }
 
 // ------------------------------------------------------------------ run
@@ -530,6 +542,10 @@ func (ex *Exec) run() {
 		ex.regs[p] = t
 		ex.params[p.Name()] = TV{t, p.Type()}
 		ex.assumeTypeInv(st, t, p.Type())
+		if isTimeTime(p.Type()) {
+			vc.assume(TTrue, Ge(t, T{ZeroTime, SInt}))
+			vc.assumed["A-time: time.Time arguments are not before the zero time (year 1)"] = true
+		}
 	}
 	if len(fn.Params) > 0 && fn.Signature.Recv() != nil {
 		// receivers are non-nil (a nil receiver panics at the first field access; call sites are checked separately)
@@ -558,6 +574,7 @@ func (ex *Exec) run() {
 					continue
 				}
 				st.ghost["held:"+key] = TTrue
+				st.ghost["wheld:"+key] = TTrue
 			}
 		}
 	}
